@@ -4,3 +4,4 @@ import DsdVerif.Props.C19More
 import DsdVerif.Props.C19Doc
 import DsdVerif.Props.C19Layout
 import DsdVerif.Props.C19Tabs
+import DsdVerif.Props.C19Sound
